@@ -346,9 +346,12 @@ func (s LStage) Sexp() Sexp {
 		}
 		return L(A("logfmt"), bsList(s.Labels), LS(es))
 	case "regexp":
-		mp := make([]Sexp, len(s.Groups))
+		// submatch index -> label; an unnamed group ("") takes an index and exposes nothing
+		var mp []Sexp
 		for i, g := range s.Groups {
-			mp[i] = L(N(int64(i+1)), B(g))
+			if g != "" {
+				mp = append(mp, L(N(int64(i+1)), B(g)))
+			}
 		}
 		return L(A("regexp"), s.Re.Sexp(), N(int64(len(s.Groups))), LS(mp))
 	case "pattern":
